@@ -263,6 +263,9 @@ class CallTracer:
         self.logger = logger
         self.traces: Dict[FrameType, CallTrace] = {}
         self.sample_rate = sample_rate
+        # Sampling draws from a generator of its own: the module-level functions of
+        # random share one generator with the traced program.
+        self._random = random.Random()
         self.cache: Dict[Tuple[str, CodeType], Optional[Callable[..., Any]]] = {}
         self.should_trace = code_filter
         self.max_typed_dict_size = max_typed_dict_size
@@ -281,7 +284,7 @@ class CallTracer:
             # The call was either picked up when the frame was first entered or
             # not sampled at all; its locals are no longer its arguments.
             return
-        if self.sample_rate and random.randrange(self.sample_rate) != 0:
+        if self.sample_rate and self._random.randrange(self.sample_rate) != 0:
             return
         func = self._get_func(frame)
         if func is None:
